@@ -347,7 +347,11 @@ Fixpoint to_json_msg (cd : jcodec) (o : jopts) (S : schema) (nm : names) (lim : 
   | Datatypes.S f => json_msg_body cd o S nm lim (to_json_msg cd o S nm lim f) tid v
   end.
 
-Definition to_json := to_json_msg.
+(* Multiline and Indent select the rendering of the tree only: the tree is computed from the other four *)
+Definition jo_tree (o : jopts) : jopts :=
+  mkJO false false (o_proto_names o) (o_enum_numbers o) (o_emit_unpop o) (o_emit_defaults o).
+
+Definition to_json (cd : jcodec) (o : jopts) := to_json_msg cd (jo_tree o).
 
 (* ================================================================== decoder *)
 
